@@ -324,8 +324,9 @@ fn tp_json(tp: &TimePoint) -> Value {
            "block_number": *tp.chain_point.block_number, "block_hash": tp.chain_point.block_hash})
 }
 
-fn agreement_shard(shard: u64, mon: &mut Monitor, cases: u64) {
+fn agreement_shard(shard: u64, mon: &mut Monitor, cases: u64, keep_distinct: u64) {
     let mut rng = mon.rng("agreement", shard);
+    let mut kept = 0u64;
     let all: Vec<SignedEntityTypeDiscriminants> = SignedEntityTypeDiscriminants::all().into_iter().collect();
     for case in 0..cases {
         let mut allowed: Vec<SignedEntityTypeDiscriminants> = all.iter().copied().filter(|_| rnd::chance(&mut rng, 1, 2)).collect();
@@ -390,7 +391,12 @@ fn agreement_shard(shard: u64, mon: &mut Monitor, cases: u64) {
                         replay(),
                     );
                 }
-                mon.nontrivial_str(&format!("agree|{}|{}|{}", cfg_json, tp_json(&tp), d));
+                if kept < keep_distinct {
+                    kept += 1;
+                    mon.nontrivial_str(&format!("agree|{}|{}|{}", cfg_json, tp_json(&tp), d));
+                } else {
+                    mon.count("agreement:nontrivial_not_deduplicated");
+                }
                 let kind = match d {
                     SignedEntityTypeDiscriminants::CardanoTransactions => Some(0usize),
                     SignedEntityTypeDiscriminants::CardanoBlocksTransactions => Some(1usize),
@@ -589,20 +595,20 @@ fn main() {
     // 2. random 64-bit samples
     let (shards, configs, keep) = match args.tier {
         Tier::Quick => (16u64, 30_000u64, 70_000u64),
-        Tier::Thorough => (64, 20_000_000 / (64 * 16), 40_000),
+        Tier::Thorough => (64, 20_000_000 / (64 * 16), 20_000),
     };
     vcore::run_shards(&mut mon, shards, threads, |s, m| random_shard(s, m, configs, keep));
     extremes(&mut mon);
 
     // 3. purity / agreement
-    let (shards, cases) = match args.tier {
-        Tier::Quick => (16u64, 400u64),
-        Tier::Thorough => (64, 6_000),
+    let (shards, cases, keep) = match args.tier {
+        Tier::Quick => (16u64, 400u64, 1_000_000u64),
+        Tier::Thorough => (64, 6_000, 20_000),
     };
-    vcore::run_shards(&mut mon, shards, threads, |s, m| agreement_shard(s, m, cases));
+    vcore::run_shards(&mut mon, shards, threads, |s, m| agreement_shard(s, m, cases, keep));
 
     mon.finish(
-        "EXHAUSTIVE only on the grid sub-space (tip 0..=700 x 14 security parameters x 15 steps x both entity kinds, all successive-tip pairs, each point observed at compute_block_number_to_be_signed and through time_point_to_signed_entity); SAMPLED elsewhere: seeded random configurations (security parameter, step <= 2^40 from a mixture of small values, neighbours of multiples of 15, neighbours of powers of two, uniform) each with a run of 8 non-decreasing tips <= 2^62 placed around sec, sec+step, multiples of the step or uniform; and seeded purity/agreement cases (random allowed-discriminant subsets, present/absent signing configurations, epochs incl. 0, runs of 4 successive time points, all 5 discriminants; configuration built directly vs rebuilt from its JSON wire form; repeated and interleaved calls; list_allowed_signed_entity_types vs per-discriminant conversion). Oracle in i128: sel <= max(tip-sec,0); sel non-decreasing in the tip; blocks entity sel = n*max(step,1); transactions entity (sel+1) multiple of 15 once the first step is behind the margin and all selections of a configuration explained by one range-aligned step (configured step rounded down or up to 15, at least 15). Non-trivial = tip beyond the security margin (selection not forced to 0), or an agreement comparison; distinct = distinct (kind, tip, sec, step) / (config, time point, discriminant); random non-trivial cases are deduplicated only for the first 70k (quick) / 40k (thorough) per shard (rest counted in random:nontrivial_not_deduplicated).",
+        "EXHAUSTIVE only on the grid sub-space (tip 0..=700 x 14 security parameters x 15 steps x both entity kinds, all successive-tip pairs, each point observed at compute_block_number_to_be_signed and through time_point_to_signed_entity); SAMPLED elsewhere: seeded random configurations (security parameter, step <= 2^40 from a mixture of small values, neighbours of multiples of 15, neighbours of powers of two, uniform) each with a run of 8 non-decreasing tips <= 2^62 placed around sec, sec+step, multiples of the step or uniform; and seeded purity/agreement cases (random allowed-discriminant subsets, present/absent signing configurations, epochs incl. 0, runs of 4 successive time points, all 5 discriminants; configuration built directly vs rebuilt from its JSON wire form; repeated and interleaved calls; list_allowed_signed_entity_types vs per-discriminant conversion). Oracle in i128: sel <= max(tip-sec,0); sel non-decreasing in the tip; blocks entity sel = n*max(step,1); transactions entity (sel+1) multiple of 15 once the first step is behind the margin and all selections of a configuration explained by one range-aligned step (configured step rounded down or up to 15, at least 15). Non-trivial = tip beyond the security margin (selection not forced to 0), or an agreement comparison; distinct = distinct (kind, tip, sec, step) / (config, time point, discriminant); to bound memory, random and agreement non-trivial cases are entered into the distinct set only for the first 70k (quick) / 20k (thorough) per shard, the rest is counted in random:nontrivial_not_deduplicated / agreement:nontrivial_not_deduplicated.",
         &[
             "an error (not a panic) of the Cardano stake distribution conversion at epoch 0 and of the transactions/blocks conversions without signing configuration is legitimate",
             "the direction in which the configured step is rounded to the block-range length is not fixed by the statement: either rounding is accepted if it explains every selection of a configuration",
